@@ -20,7 +20,7 @@ pub fn def() -> CheckDef {
     CheckDef {
         id: "C34",
         level: "fault_enumeration",
-        configs: &["write-dataset", "write-file", "write-deflated", "read-dataset", "read-file", "pdu-write", "pdu-read", "assoc-requestor-sync", "assoc-acceptor-sync", "assoc-requestor-async", "assoc-acceptor-async", "write-to-file"],
+        configs: &["write-dataset", "write-file", "write-deflated", "read-dataset", "read-file", "pdu-write", "pdu-read", "assoc-requestor-sync", "assoc-acceptor-sync", "assoc-requestor-async", "assoc-acceptor-async", "write-to-file", "pdu-async"],
         quick_runs: 22_000,
         thorough_runs: 1_000_000,
         run,
@@ -42,7 +42,7 @@ pub fn def() -> CheckDef {
                write-to-file: FileDicomObject::write_to_file on a real file whose write() calls are interposed: the disk accepts \
                exactly k bytes for every (or sampled) k and then fails with ENOSPC/EIO/EDQUOT once or persistently, or EINTR \
                once, optionally after cutting the crossing write short; Err, or Ok with the stored file equal to the reference",
-        real: &["InMemDicomObject::write_dataset_with_ts(_options)", "FileDicomObject::write_all / write_dataset / write_meta", "FileDicomObject::write_to_file on a real file (tmpfs sandbox) through std::fs::File and BufWriter", "deflate adapter", "read_dataset_with_ts, OpenFileOptions::from_reader, FileMetaTable::from_reader", "write_pdu, PDataWriter (write/finish), read_pdu_from_wire, PDataReader", "assoc-*: Client/Server(Async)Association establish, send, receive, release, abort on real std/tokio TcpStream values"],
+        real: &["InMemDicomObject::write_dataset_with_ts(_options)", "FileDicomObject::write_all / write_dataset / write_meta", "FileDicomObject::write_to_file on a real file (tmpfs sandbox) through std::fs::File and BufWriter", "deflate adapter", "read_dataset_with_ts, OpenFileOptions::from_reader, FileMetaTable::from_reader", "write_pdu, PDataWriter (write/finish), read_pdu_from_wire, PDataReader", "pdu-async: AsyncPDataWriter (write_all / finish / Drop), read_pdu_from_wire_async, PDataReader as AsyncRead, polled by the harness's manual executor", "assoc-*: Client/Server(Async)Association establish, send, receive, release, abort on real std/tokio TcpStream values"],
         stub: &["failing sink/source (SimSink/SimSource with Fault)", "write-to-file: the disk, as the interposed libc write(): accepts exactly k bytes, optionally cuts the crossing write short, then fails with ENOSPC / EIO / EDQUOT (once or persistently) or EINTR (once)", "reference = the same operation on a healthy seam", "assoc-*: simulated TCP with a deterministic loss-of-connection offset; scripted peer"],
         assumptions: &["Interrupted and UnexpectedEof are not used as the injected failure (the first must be retried by contract, the second is dicom-rs' documented graceful end of data)", "association level: the failure is loss of the connection (ECONNRESET/EPIPE) at a byte offset; other errno values are injected by C30's random faults"],
         required_probes: &["fault-positions-exhaustive", "fault-positions-sampled", "ok-with-complete-output", "err-reported", "fault-in-drop-window", "assoc-cut-sent-offset", "assoc-cut-received-offset", "assoc-established-under-cut", "assoc-establish-failed-under-cut", "assoc-complete-despite-cut", "assoc-error-reported", "disk-fault-position", "disk-eintr-retried"],
@@ -477,7 +477,124 @@ fn run(cfg: usize, w: &mut Tape, env: &EnvRef) -> RunResult {
         5 => run_pdu_write(w, env),
         6 => run_pdu_read(w, env),
         11 => run_write_to_file(w, env),
+        12 => run_pdu_async(w, env),
         n => crate::checks::c30::run_assoc_faults(n - 7, w, env),
+    }
+}
+
+/// The asynchronous twins of the PDU paths (AsyncPDataWriter, read_pdu_from_wire_async, the AsyncRead side of
+/// PDataReader) driven by the manual poller over a failing AsyncWrite / AsyncRead seam.
+fn run_pdu_async(w: &mut Tape, env: &EnvRef) -> RunResult {
+    use dicom_ul::association::{read_pdu_from_wire_async, AsyncPDataWriter};
+    use std::pin::pin;
+    use tokio::io::{AsyncReadExt, AsyncWriteExt};
+    let _g = crate::checks::c26::rt_handle().enter();
+    let flat = |r: Result<std::io::Result<()>, DriveError>| -> Result<(), String> {
+        match r {
+            Ok(Ok(())) => Ok(()),
+            Ok(Err(e)) => Err(format!("{}", e)),
+            // a future that stops making progress is no success either (progress itself is C26's subject)
+            Err(_) => Err("future did not complete".into()),
+        }
+    };
+    match w.below(3) {
+        0 => {
+            let max = 1018 + w.below(200);
+            let n = w.below(2600) as usize;
+            let payload = simcore::pattern_bytes(1, n);
+            let chunk = 1 + w.below(1200) as usize;
+            enumerate_write_faults(
+                w,
+                env,
+                "AsyncPDataWriter",
+                |sink| {
+                    // the writer's Drop blocks on the transport: Pending must then complete at once
+                    crate::simio::set_immediate_wake(env, true);
+                    let mut wr = AsyncPDataWriter::new_for_verif(sink, 1, max);
+                    for c in payload.chunks(chunk) {
+                        let r = {
+                            let fut = pin!(wr.write_all(c));
+                            drive(env, fut, 100_000)
+                        };
+                        flat(r)?;
+                    }
+                    // (a writer that is merely dropped reports nothing, so no success is claimed for it: finish it)
+                    let r = {
+                        let fut = pin!(wr.finish());
+                        drive(env, fut, 100_000)
+                    };
+                    flat(r)
+                },
+                |b| Ok(b.to_vec()),
+            )
+        }
+        1 => {
+            let n = 1 + w.below(3);
+            let mut pdus = Vec::new();
+            let mut bytes = Vec::new();
+            for _ in 0..n {
+                let p = gen_pdu(w, &GenOpts { big: false, max_pdata: 300, unknown: true });
+                if write_pdu(&mut bytes, &p).is_ok() {
+                    pdus.push(p);
+                }
+            }
+            let count = pdus.len();
+            enumerate_read_faults(
+                w,
+                env,
+                "read_pdu_from_wire_async",
+                &bytes,
+                |mut src| {
+                    let mut rb = BytesMut::new();
+                    let mut out = Vec::new();
+                    for _ in 0..count {
+                        let r = {
+                            let fut = pin!(read_pdu_from_wire_async(&mut src, &mut rb, 70_000, false));
+                            drive(env, fut, 100_000)
+                        };
+                        match r {
+                            Ok(Ok(p)) => out.push(p),
+                            Ok(Err(e)) => return Err(format!("{}", e)),
+                            Err(_) => return Err("future did not complete".into()),
+                        }
+                    }
+                    Ok(out)
+                },
+                |a, b| a == b,
+            )
+        }
+        _ => {
+            let max = 1018 + w.below(200);
+            let n = w.below(2600) as usize;
+            let payload = simcore::pattern_bytes(1, n);
+            let mut stream = Vec::new();
+            {
+                let mut wr = PDataWriter::new_for_verif(&mut stream, 3, max);
+                wr.write_all(&payload).map_err(harness)?;
+                wr.finish().map_err(harness)?;
+            }
+            enumerate_read_faults(
+                w,
+                env,
+                "PDataReader(async)",
+                &stream,
+                |mut src| {
+                    let mut rb = BytesMut::new();
+                    let mut got = Vec::new();
+                    let mut rd = PDataReader::new(&mut src, max, &mut rb);
+                    let r = {
+                        let fut = pin!(AsyncReadExt::read_to_end(&mut rd, &mut got));
+                        drive(env, fut, 100_000)
+                    };
+                    match r {
+                        Ok(Ok(_)) => Ok(got),
+                        Ok(Err(e)) => Err(format!("{}", e)),
+                        Err(_) => Err("future did not complete".into()),
+                    }
+                },
+                |a, b| a == b,
+            )
+        }
     }
 }
 
